@@ -45,10 +45,10 @@ Proof.
   cbn [length le unle]. f_equal.
   - rewrite <- (n2b_b2n x) at 2. unfold n2b.
     replace ((b2n x + 256 * unle b) mod 256) with (b2n x mod 256); [reflexivity|].
-    rewrite N.add_comm, N.mul_comm, N.mod_add by lia. reflexivity.
+    rewrite (N.mul_comm 256 (unle b)), N.mod_add by lia. reflexivity.
   - replace ((b2n x + 256 * unle b) / 256) with (unle b); [exact IH|].
-    rewrite N.add_comm, N.mul_comm, N.div_add_l by lia.
-    rewrite (N.div_small (b2n x)) by apply b2n_lt. now rewrite N.add_0_r.
+    rewrite (N.mul_comm 256 (unle b)), N.div_add by lia.
+    rewrite (N.div_small (b2n x)) by apply b2n_lt. reflexivity.
 Qed.
 
 Lemma le_inj_unle a b : length a = length b -> unle a = unle b -> a = b.
@@ -93,7 +93,7 @@ Proof.
     pose proof (N.mod_upper_bound b31 32). change (2 ^ 253) with (2 ^ 248 * 32). change (2^248) with (256 * 2^240) in *. lia. }
   rewrite E.
   assert (Em : (lo + 2 ^ 253 * (b31 / 32)) mod 2 ^ 253 = lo).
-  { rewrite N.add_comm, N.mul_comm, N.mod_add by lia. now apply N.mod_small. }
+  { symmetry. apply N.mod_unique with (q := b31 / 32); [exact Hlo | lia]. }
   rewrite Em.
   assert (Ed : lo / 8 = b0 / 8 + 32 * M + 2 ^ 245 * (b31 mod 32)).
   { unfold lo. symmetry. apply N.div_unique with (r := b0 mod 8).
@@ -174,3 +174,412 @@ Proof.
       * rewrite pow256_32. pose proof (tweak_range (b2n b0 + 256 * (unle mid + 256 ^ 30 * b2n b31))). lia.
   - cbn. rewrite !app_length. reflexivity.
 Qed.
+
+(* ================= refinement ================= *)
+Section Refinement.
+Variable P : prims.
+Local Notation enc := (enc_pt P).
+Local Notation sB := (smulB P).
+
+(* wallets that carry a private key, related to an integer-level extended private key *)
+Definition roots_ok (w : wallet) : Prop := is_empty (w_root_xprv w) && is_empty (w_root_pub w) = false.
+Definition wf_priv (w : wallet) (x : xprv) : Prop :=
+  w_xprv w = Some (ser256 (x_kL x) ++ ser256 (x_kR x)) /\ w_pub w = enc (sB (x_kL x)) /\ w_cc w = x_c x
+  /\ x_kR x < 2^256 /\ roots_ok w.
+Definition wf_pub (w : wallet) (p : xpub P) : Prop :=
+  w_pub w = enc (p_A p) /\ w_cc w = p_c p /\ roots_ok w.
+(* kL after d derivation steps below an Icarus root *)
+Definition kL_bound (d : N) (x : xprv) : Prop := 2^254 <= x_kL x < 2^254 + 2^253 + d * 2^227.
+Definition max_depth : N := 2^26.
+
+(* the wallet the code must return for the integer-level child x' *)
+Definition priv_child (w : wallet) (x' : xprv) (index : Z) : wallet :=
+  {| w_root_xprv := w_root_xprv w; w_root_pub := w_root_pub w; w_root_cc := w_root_cc w;
+     w_xprv := Some (ser256 (x_kL x') ++ ser256 (x_kR x')); w_pub := enc (sB (x_kL x')); w_cc := x_c x';
+     w_path := child_path (w_path w) index |}.
+Definition pub_child (w : wallet) (p' : xpub P) (index : Z) : wallet :=
+  {| w_root_xprv := w_root_xprv w; w_root_pub := w_root_pub w; w_root_cc := w_root_cc w;
+     w_xprv := None; w_pub := enc (p_A p'); w_cc := p_c p';
+     w_path := child_path (w_path w) index |}.
+Definition root_wallet (x : xprv) : wallet :=
+  {| w_root_xprv := ser256 (x_kL x) ++ ser256 (x_kR x); w_root_pub := enc (sB (x_kL x)); w_root_cc := x_c x;
+     w_xprv := Some (ser256 (x_kL x) ++ ser256 (x_kR x)); w_pub := enc (sB (x_kL x)); w_cc := x_c x;
+     w_path := m_path |}.
+
+Lemma ser256_length k : length (ser256 k) = 32%nat.
+Proof. apply le_length. Qed.
+
+Lemma noclamp_small k : 0 < k < 2^255 ->
+  noclamp P (le 32 k) = if is_identity P (sB k) then Err ERuntime else Ok (enc (sB k)).
+Proof.
+  intros H. unfold noclamp, is_identity. rewrite le_length. cbn [Nat.eqb negb].
+  rewrite unle_le_small by (rewrite pow256_32; lia).
+  rewrite N.mod_small by lia.
+  replace (k =? 0) with false by (symmetry; apply N.eqb_neq; lia).
+  rewrite orb_false_r. reflexivity.
+Qed.
+
+Lemma to_bytes_le_32 n : n < 2^256 -> to_bytes_le 32 n = Some (le 32 n).
+Proof.
+  intros H. unfold to_bytes_le. rewrite pow256_32.
+  replace (n <? 2^256) with true by (symmetry; apply N.ltb_lt; exact H). reflexivity.
+Qed.
+
+Lemma in_range_N index : in_index_range index = true -> Z.to_N index < 2^32 /\ Z.of_N (Z.to_N index) = index.
+Proof. unfold in_index_range. intros H. split; lia. Qed.
+
+(* ---- private child: the code's bytes are the specification's integers, for every index ---- *)
+Lemma derive_private_refines w x xb index :
+  wf_priv w x -> w_xprv w = Some xb ->
+  0 < x_kL x -> x_kL x + 2^227 <= 2^255 ->
+  in_index_range index = true ->
+  derive_private P w xb index =
+    match spec_ckd_priv P x (Z.to_N index) with
+    | Some x' => Ok (priv_child w x' index)
+    | None => Err ERuntime
+    end.
+Proof.
+  intros (Hx & Hp & Hc & HR & Hroot) Hxb Hpos Hb Hr.
+  assert (Exb : xb = ser256 (x_kL x) ++ ser256 (x_kR x)) by congruence. subst xb. clear Hxb.
+  destruct (in_range_N _ Hr) as (Hi & _).
+  unfold derive_private, spec_ckd_priv, spec_Z_priv, index_bound, hardened_threshold.
+  rewrite Hr. cbn [negb].
+  replace (2^32 <=? Z.to_N index) with false by (symmetry; apply N.leb_gt; exact Hi).
+  rewrite (firstn_app_exact _ _ 32 (ser256_length _)), (skipn_app_exact _ _ 32 (ser256_length _)).
+  rewrite Hp, Hc. unfold xprv_pub.
+  assert (HkL : x_kL x < 2^256) by lia.
+  rewrite (unle_ser256 _ HkL), (unle_ser256 _ HR).
+  set (i := Z.to_N index) in *.
+  assert (Fin : forall Z c,
+    match to_bytes_le 32 (unle (firstn 28 Z) * 8 + x_kL x) with
+    | Some kL => match to_bytes_le 32 ((unle (skipn 32 Z) + x_kR x) mod 2^256) with
+                 | Some kR => bind (noclamp P kL) (fun A =>
+                     Ok {| w_root_xprv := w_root_xprv w; w_root_pub := w_root_pub w; w_root_cc := w_root_cc w;
+                           w_xprv := Some (kL ++ kR); w_pub := A; w_cc := c; w_path := child_path (w_path w) index |})
+                 | None => Err EOverflow end
+    | None => Err EOverflow end
+    = if is_identity P (sB (8 * zL_of Z + x_kL x)) then Err ERuntime
+      else Ok (priv_child w {| x_kL := 8 * zL_of Z + x_kL x; x_kR := (zR_of Z + x_kR x) mod 2^256; x_c := c |} index)).
+  { intros Z c. pose proof (zL_bound Z) as B. unfold zL_of, zR_of in *.
+    rewrite (N.mul_comm (unle (firstn 28 Z)) 8).
+    rewrite to_bytes_le_32 by lia.
+    rewrite to_bytes_le_32 by (apply N.mod_upper_bound; lia).
+    rewrite noclamp_small by lia.
+    destruct (is_identity P (sB (8 * unle (firstn 28 Z) + x_kL x))); reflexivity. }
+  destruct (i <? 2^31).
+  - cbn [app]. rewrite Fin.
+    destruct (is_identity P _); reflexivity.
+  - cbn [app]. rewrite <- !app_assoc. rewrite Fin.
+    destruct (is_identity P _); reflexivity.
+Qed.
+
+
+Definition eff_index (index : Z) (hardened : bool) : Z := if hardened then (index + 2^31)%Z else index.
+
+(* derive(index, private=True, hardened) on a wallet holding x: exactly the specification's child *)
+Lemma derive_private_spec w x index hardened :
+  wf_priv w x -> 0 < x_kL x -> x_kL x + 2^227 <= 2^255 ->
+  derive P w index true hardened =
+    if in_index_range (eff_index index hardened) then
+      match spec_ckd_priv P x (Z.to_N (eff_index index hardened)) with
+      | Some x' => Ok (priv_child w x' (eff_index index hardened))
+      | None => Err ERuntime
+      end
+    else Err EAssert.
+Proof.
+  intros Hwf Hpos Hb. pose proof Hwf as (Hx & _ & _ & _ & Hroot).
+  unfold derive. rewrite Hroot, Hx. fold (eff_index index hardened).
+  destruct (in_index_range (eff_index index hardened)) eqn:Hr.
+  - now apply derive_private_refines.
+  - unfold derive_private. rewrite Hr. reflexivity.
+Qed.
+
+Lemma spec_ckd_priv_inv x i x' : spec_ckd_priv P x i = Some x' ->
+  i < 2^32 /\ exists zL, zL < 2^224 /\ x_kL x' = 8 * zL + x_kL x /\ x_kR x' < 2^256
+  /\ is_identity P (sB (x_kL x')) = false.
+Proof.
+  unfold spec_ckd_priv, index_bound. destruct (2^32 <=? i) eqn:E; [discriminate|].
+  destruct (spec_Z_priv P x i) as [Z C].
+  destruct (is_identity P _) eqn:Ei; [discriminate|]. intros H. injection H as <-.
+  split; [apply N.leb_gt in E; exact E|].
+  exists (zL_of Z). cbn [x_kL x_kR]. repeat split; [apply zL_bound | | exact Ei].
+  apply N.mod_upper_bound. lia.
+Qed.
+
+Lemma priv_child_wf w x x' index : wf_priv w x -> x_kR x' < 2^256 -> wf_priv (priv_child w x' index) x'.
+Proof. intros (_ & _ & _ & _ & Hroot) HR. unfold wf_priv, priv_child, roots_ok in *. cbn. auto. Qed.
+
+(* ---- every depth ---- *)
+Fixpoint impl_path_priv (w : wallet) (l : list N) : result wallet :=
+  match l with
+  | [] => Ok w
+  | i :: r => bind (derive P w (Z.of_N i) true false) (fun w' => impl_path_priv w' r)
+  end.
+
+Lemma depth_room d x : kL_bound d x -> d < max_depth -> 0 < x_kL x /\ x_kL x + 2^227 <= 2^255.
+Proof.
+  unfold kL_bound, max_depth. intros [H1 H2] Hd.
+  assert (d * 2^227 <= (2^26 - 1) * 2^227) by (apply N.mul_le_mono_r; lia).
+  change ((2^26 - 1) * 2^227) with (2^253 - 2^227) in *.
+  change (2^255) with (2^254 + 2^253 + 2^253). split; lia.
+Qed.
+
+Lemma derive_all_depths : forall l w x d,
+  wf_priv w x -> kL_bound d x -> d + lenN l <= max_depth ->
+  match spec_path_priv P x l with
+  | Some x' => exists w', impl_path_priv w l = Ok w' /\ wf_priv w' x' /\ kL_bound (d + lenN l) x'
+                          /\ w_root_xprv w' = w_root_xprv w /\ w_root_pub w' = w_root_pub w /\ w_root_cc w' = w_root_cc w
+  | None => exists e, impl_path_priv w l = Err e
+  end.
+Proof.
+  induction l as [|i l IH]; intros w x d Hwf Hk Hd.
+  - cbn [spec_path_priv impl_path_priv lenN]. exists w. rewrite N.add_0_r. auto 10.
+  - cbn [spec_path_priv impl_path_priv]. cbn [lenN] in Hd.
+    destruct (depth_room d x Hk) as (Hpos & Hb); [lia|].
+    rewrite (derive_private_spec w x (Z.of_N i) false Hwf Hpos Hb). unfold eff_index.
+    destruct (in_index_range (Z.of_N i)) eqn:Hr.
+    + rewrite N2Z.id.
+      destruct (spec_ckd_priv P x i) as [x'|] eqn:Ec.
+      * destruct (spec_ckd_priv_inv _ _ _ Ec) as (_ & zL & HzL & HkL & HkR & _).
+        cbn [bind].
+        assert (Hwf' : wf_priv (priv_child w x' (Z.of_N i)) x') by (eapply priv_child_wf; eauto).
+        assert (Hk' : kL_bound (d + 1) x').
+        { unfold kL_bound in *. rewrite HkL. change (2^227) with (8 * 2^224). lia. }
+        specialize (IH (priv_child w x' (Z.of_N i)) x' (d + 1) Hwf' Hk').
+        replace (d + 1 + lenN l) with (d + (1 + lenN l)) in IH by lia.
+        specialize (IH Hd). cbn [lenN].
+        destruct (spec_path_priv P x' l) as [x''|]; [|exact IH].
+        destruct IH as (w' & H1 & H2 & H3 & H4 & H5 & H6). exists w'. auto 10.
+      * cbn [bind]. eauto.
+    + cbn [bind].
+      assert (Hi : spec_ckd_priv P x i = None).
+      { unfold spec_ckd_priv, index_bound. unfold in_index_range in Hr.
+        replace (2^32 <=? i) with true by (symmetry; apply N.leb_le; lia). reflexivity. }
+      rewrite Hi. eauto.
+Qed.
+
+(* ---- the root ---- *)
+Hypothesis pbkdf2_len : forall p s, length (pbkdf2 P p s) = 96%nat.
+
+Lemma firstn_plus {A} n m : forall (l : list A), firstn (n + m) l = firstn n l ++ firstn m (skipn n l).
+Proof.
+  induction n as [|n IH]; intros l; [reflexivity|].
+  destruct l as [|x l]; cbn [Nat.add firstn skipn app]; [now rewrite firstn_nil | now rewrite IH].
+Qed.
+Lemma skipn_plus {A} n m : forall (l : list A), skipn (n + m) l = skipn m (skipn n l).
+Proof.
+  induction n as [|n IH]; intros l; [reflexivity|].
+  destruct l as [|x l]; cbn [Nat.add skipn]; [now rewrite skipn_nil | now rewrite IH].
+Qed.
+
+Lemma root_wallet_wf x : x_kR x < 2^256 -> wf_priv (root_wallet x) x.
+Proof. intros H. unfold wf_priv, root_wallet, roots_ok. cbn. auto. Qed.
+
+Lemma seed_wallet_spec pass entropy :
+  let x := spec_root P pass entropy in
+  from_seed P (generate_seed P pass entropy)
+    = (if is_identity P (sB (x_kL x)) then Err ERuntime else Ok (root_wallet x))
+  /\ wf_priv (root_wallet x) x /\ kL_bound 0 x /\ x_kL x mod 8 = 0.
+Proof.
+  intros x. unfold generate_seed, from_seed.
+  set (s := pbkdf2 P pass entropy) in *. pose proof (pbkdf2_len pass entropy) as L. fold s in L.
+  destruct (tweak_bits_spec s) as (t & Ht & F32 & S32 & Lt); [lia|].
+  assert (HkL : x_kL x = tweak (unle (firstn 32 s))) by reflexivity.
+  assert (HkR : x_kR x = unle (firstn 32 (skipn 32 s))) by reflexivity.
+  assert (Hc : x_c x = skipn 64 s) by reflexivity.
+  pose proof (tweak_range (unle (firstn 32 s))) as (Hrng & Hm8). rewrite <- HkL in Hrng, Hm8.
+  assert (L32 : length (firstn 32 (skipn 32 s)) = 32%nat) by (rewrite firstn_length, skipn_length; lia).
+  assert (HR : x_kR x < 2^256).
+  { rewrite HkR. pose proof (unle_bound (firstn 32 (skipn 32 s))) as B. rewrite L32, pow256_32 in B. exact B. }
+  repeat split; try assumption; try (unfold kL_bound; lia); try (apply root_wallet_wf; exact HR).
+  rewrite Ht. cbn [bind]. rewrite F32, <- HkL.
+  rewrite noclamp_small by lia.
+  destruct (is_identity P (sB (x_kL x))); [reflexivity|]. cbn [bind]. f_equal.
+  assert (F64 : firstn 64 t = ser256 (x_kL x) ++ ser256 (x_kR x)).
+  { change 64%nat with (32 + 32)%nat. rewrite firstn_plus, F32, S32, <- HkL. f_equal.
+    pose proof (le_unle (firstn 32 (skipn 32 s))) as Q. rewrite L32 in Q.
+    unfold ser256. rewrite HkR. exact (eq_sym Q). }
+  assert (S64 : skipn 64 t = x_c x).
+  { change 64%nat with (32 + 32)%nat. rewrite skipn_plus, S32, <- skipn_plus. exact (eq_sym Hc). }
+  unfold root_wallet. rewrite F64, S64. reflexivity.
+Qed.
+
+
+Lemma from_entropy_spec entropy pass : is_entropy_len entropy = true ->
+  let x := spec_root P pass entropy in
+  from_entropy P entropy pass = (if is_identity P (sB (x_kL x)) then Err ERuntime else Ok (root_wallet x))
+  /\ wf_priv (root_wallet x) x /\ kL_bound 0 x /\ x_kL x mod 8 = 0.
+Proof.
+  intros H x. unfold from_entropy. rewrite H. cbn [negb]. apply seed_wallet_spec.
+Qed.
+
+Lemma from_entropy_refuses entropy pass : is_entropy_len entropy = false -> from_entropy P entropy pass = Err EValue.
+Proof. intros H. unfold from_entropy. now rewrite H. Qed.
+
+(* from any entropy and passphrase, along any list of (raw) indices: the wallet the code returns
+   carries exactly the specification's keys *)
+Lemma wallet_follows_spec entropy pass l :
+  is_entropy_len entropy = true -> lenN l <= max_depth ->
+  let r := spec_root P pass entropy in
+  is_identity P (sB (x_kL r)) = false ->
+  match spec_path_priv P r l with
+  | Some x => exists w, bind (from_entropy P entropy pass) (fun w0 => impl_path_priv w0 l) = Ok w
+                /\ w_xprv w = Some (ser256 (x_kL x) ++ ser256 (x_kR x))
+                /\ w_pub w = enc (sB (x_kL x)) /\ w_cc w = x_c x
+                /\ w_root_xprv w = ser256 (x_kL r) ++ ser256 (x_kR r)
+                /\ w_root_pub w = enc (sB (x_kL r)) /\ w_root_cc w = x_c r
+                /\ x_kL x < 2^255
+  | None => exists e, bind (from_entropy P entropy pass) (fun w0 => impl_path_priv w0 l) = Err e
+  end.
+Proof.
+  intros He Hl r Hid.
+  destruct (from_entropy_spec entropy pass He) as (Hf & Hwf & Hk & _). fold r in Hf, Hwf, Hk.
+  rewrite Hid in Hf. rewrite Hf. cbn [bind].
+  pose proof (derive_all_depths l (root_wallet r) r 0 Hwf Hk) as H.
+  rewrite N.add_0_l in H. specialize (H Hl).
+  destruct (spec_path_priv P r l) as [x|]; [|exact H].
+  destruct H as (w & H1 & (H2 & H3 & H4 & _) & H5 & H6 & H7 & H8). exists w.
+  repeat split; try assumption.
+  unfold kL_bound, max_depth in *. change (2^255) with (2^254 + 2^253 + 2^26 * 2^227).
+  assert (lenN l * 2^227 <= 2^26 * 2^227) by (apply N.mul_le_mono_r; exact Hl). lia.
+Qed.
+
+(* ---- public derivation ---- *)
+Hypothesis enc_len : forall g, length (enc g) = 32%nat.
+Hypothesis smulB_add : forall a b, sB (a + b) = gadd P (sB a) (sB b).
+Hypothesis pt_add_enc : forall a b, pt_add P (enc a) (enc b) = Some (enc (gadd P a b)).
+
+Lemma wf_priv_pub w x : wf_priv w x -> wf_pub w (neuter P x).
+Proof. intros (_ & Hp & Hc & _ & Hr). unfold wf_pub, neuter, xprv_pub. cbn. auto. Qed.
+
+Definition pub_Z (p : xpub P) (i : N) : bytes := hmac512 P (p_c p) (x02 :: enc (p_A p) ++ ser32 i).
+Definition pub_C (p : xpub P) (i : N) : bytes := hmac512 P (p_c p) (x03 :: enc (p_A p) ++ ser32 i).
+
+Lemma derive_public_spec w p index hardened :
+  wf_pub w p ->
+  derive P w index false hardened =
+    let iz := eff_index index hardened in
+    let i := Z.to_N iz in
+    if in_index_range iz then
+      if i <? 2^31 then
+        let zL := zL_of (pub_Z p i) in
+        if (zL =? 0) || is_identity P (sB (8 * zL)) then Err ERuntime
+        else Ok (pub_child w {| p_A := gadd P (p_A p) (sB (8 * zL)); p_c := skipn 32 (pub_C p i) |} iz)
+      else Err EValue
+    else Err EAssert.
+Proof.
+  intros (Hp & Hc & Hroot). unfold derive. rewrite Hroot. fold (eff_index index hardened).
+  cbv zeta. unfold derive_public. set (iz := eff_index index hardened).
+  destruct (in_index_range iz); [|reflexivity]. cbn [negb].
+  destruct (Z.to_N iz <? 2^31); [|reflexivity]. cbn [negb].
+  rewrite Hp, Hc. cbn [app]. fold (ser32 (Z.to_N iz)). fold (pub_Z p (Z.to_N iz)). fold (pub_C p (Z.to_N iz)).
+  fold (zL_of (pub_Z p (Z.to_N iz))).
+  pose proof (zL_bound (pub_Z p (Z.to_N iz))) as B. set (zL := zL_of (pub_Z p (Z.to_N iz))) in *.
+  rewrite to_bytes_le_32 by lia.
+  destruct (zL =? 0) eqn:Ez.
+  - apply N.eqb_eq in Ez. rewrite Ez. cbn [orb].
+    unfold noclamp. rewrite le_length. cbn [Nat.eqb negb].
+    rewrite unle_le_small by (rewrite pow256_32; lia).
+    change (8 * 0 =? 0) with true. rewrite orb_true_r. reflexivity.
+  - apply N.eqb_neq in Ez. cbn [orb]. rewrite noclamp_small by lia.
+    destruct (is_identity P (sB (8 * zL))); [reflexivity|]. cbn [bind].
+    unfold ed_add. rewrite !enc_len. cbn [Nat.eqb andb negb]. rewrite pt_add_enc. reflexivity.
+Qed.
+
+(* hardened public derivation is refused, for every wallet and every index *)
+Lemma derive_public_hardened w index hardened :
+  (2^31 <= eff_index index hardened)%Z ->
+  derive P w index false hardened =
+    Err (if is_empty (w_root_xprv w) && is_empty (w_root_pub w) then EValue
+         else if (eff_index index hardened <? 2^32)%Z then EValue else EAssert).
+Proof.
+  intros H. unfold derive. fold (eff_index index hardened).
+  destruct (is_empty (w_root_xprv w) && is_empty (w_root_pub w)); [reflexivity|].
+  unfold derive_public, in_index_range.
+  destruct (eff_index index hardened <? 2^32)%Z eqn:E.
+  - replace (0 <=? eff_index index hardened)%Z with true by lia. cbn [andb negb].
+    replace (Z.to_N (eff_index index hardened) <? 2^31) with false by lia. reflexivity.
+  - rewrite andb_false_r. reflexivity.
+Qed.
+
+(* what the code returns for a public step is the specification's public child *)
+Lemma derive_public_sound w p index hardened w' :
+  wf_pub w p -> derive P w index false hardened = Ok w' -> w_pub w' <> enc (gzero P) ->
+  exists p', spec_ckd_pub P p (Z.to_N (eff_index index hardened)) = Some p'
+             /\ w' = pub_child w p' (eff_index index hardened) /\ wf_pub w' p' /\ w_xprv w' = None.
+Proof.
+  intros Hwf Hd Hne. rewrite (derive_public_spec w p index hardened Hwf) in Hd. cbv zeta in Hd.
+  set (iz := eff_index index hardened) in *. set (i := Z.to_N iz) in *.
+  destruct (in_index_range iz); [|discriminate].
+  destruct (i <? 2^31) eqn:Ei; [|discriminate].
+  destruct ((zL_of (pub_Z p i) =? 0) || is_identity P (sB (8 * zL_of (pub_Z p i)))); [discriminate|].
+  injection Hd as <-. eexists. split; [|split; [reflexivity|split]].
+  - unfold spec_ckd_pub, hardened_threshold. apply N.ltb_lt in Ei.
+    replace (2^31 <=? i) with false by (symmetry; apply N.leb_gt; exact Ei).
+    fold (pub_Z p i). fold (pub_C p i).
+    replace (is_identity P (gadd P (p_A p) (sB (8 * zL_of (pub_Z p i))))) with false; [reflexivity|].
+    symmetry. apply bytes_eqb_neq. exact Hne.
+  - destruct Hwf as (_ & _ & Hr). unfold wf_pub, pub_child, roots_ok in *. cbn. auto.
+  - reflexivity.
+Qed.
+
+Lemma derive_public_complete w p i p' :
+  wf_pub w p -> spec_ckd_pub P p i = Some p' ->
+  zL_of (pub_Z p i) <> 0 -> is_identity P (sB (8 * zL_of (pub_Z p i))) = false ->
+  derive P w (Z.of_N i) false false = Ok (pub_child w p' (Z.of_N i)).
+Proof.
+  intros Hwf Hs Hz Hi. rewrite (derive_public_spec w p (Z.of_N i) false Hwf). cbv zeta. unfold eff_index.
+  rewrite N2Z.id. unfold spec_ckd_pub, hardened_threshold in Hs.
+  destruct (2^31 <=? i) eqn:E; [discriminate|]. apply N.leb_gt in E.
+  replace (in_index_range (Z.of_N i)) with true by (unfold in_index_range; lia).
+  replace (i <? 2^31) with true by lia.
+  fold (pub_Z p i) in Hs. fold (pub_C p i) in Hs.
+  destruct (is_identity P (gadd P _ _)); [discriminate|]. injection Hs as <-.
+  rewrite Hi. replace (zL_of (pub_Z p i) =? 0) with false by lia. reflexivity.
+Qed.
+
+Lemma Ok_inj {A} (a b : A) : Ok a = Ok b -> a = b.
+Proof. congruence. Qed.
+Lemma Some_inj {A} (a b : A) : Some a = Some b -> a = b.
+Proof. congruence. Qed.
+
+(* public-only derivation of a non-hardened child agrees with private derivation *)
+Lemma pub_priv_agree w x index hardened wp ws :
+  wf_priv w x -> 0 < x_kL x -> x_kL x + 2^227 <= 2^255 ->
+  derive P w index false hardened = Ok wp ->
+  derive P w index true hardened = Ok ws ->
+  w_pub wp = w_pub ws /\ w_cc wp = w_cc ws /\ w_xprv wp = None
+  /\ (eff_index index hardened < 2^31)%Z.
+Proof.
+  intros Hwf Hpos Hb Hp Hs.
+  rewrite (derive_public_spec w _ index hardened (wf_priv_pub w x Hwf)) in Hp. cbv zeta in Hp.
+  rewrite (derive_private_spec w x index hardened Hwf Hpos Hb) in Hs.
+  set (iz := eff_index index hardened) in *. set (i := Z.to_N iz) in *.
+  destruct (in_index_range iz) eqn:Hr; [|discriminate].
+  destruct (i <? 2^31) eqn:Ei; [|discriminate].
+  destruct ((zL_of (pub_Z (neuter P x) i) =? 0) || _); [discriminate|]. apply Ok_inj in Hp. subst wp.
+  unfold spec_ckd_priv, spec_Z_priv, index_bound, hardened_threshold in Hs.
+  destruct (2^32 <=? i); [discriminate|]. rewrite Ei in Hs.
+  destruct (is_identity P _); [discriminate|]. apply Ok_inj in Hs. subst ws.
+  unfold pub_child, priv_child, pub_Z, pub_C, neuter, xprv_pub.
+  cbn [w_pub w_cc w_xprv x_kL x_c p_A p_c].
+  repeat split.
+  - rewrite (N.add_comm _ (x_kL x)), smulB_add. reflexivity.
+  - unfold in_index_range in Hr. subst i. lia.
+Qed.
+
+(* if the private step succeeds, the public step succeeds too unless ZL = 0 or (8 ZL)·B is the identity *)
+Lemma pub_succeeds_when_priv w x index hardened :
+  wf_priv w x -> (0 <= eff_index index hardened < 2^31)%Z ->
+  let i := Z.to_N (eff_index index hardened) in
+  zL_of (pub_Z (neuter P x) i) <> 0 -> is_identity P (sB (8 * zL_of (pub_Z (neuter P x) i))) = false ->
+  exists wp, derive P w index false hardened = Ok wp.
+Proof.
+  intros Hwf Hr i Hz Hi.
+  rewrite (derive_public_spec w _ index hardened (wf_priv_pub w x Hwf)). cbv zeta. fold i.
+  replace (in_index_range (eff_index index hardened)) with true by (unfold in_index_range; lia).
+  replace (i <? 2^31) with true by (subst i; lia).
+  rewrite Hi. replace (zL_of (pub_Z (neuter P x) i) =? 0) with false by lia. eauto.
+Qed.
+
+End Refinement.
